@@ -10,6 +10,8 @@ def spec(tier):
     obs = parts("O1.one", F, "one", n, T, what="each option (inventory read from the argparse parser): symbolic presence in file, CLI value, file value (free bool/int, 3 str/list/dict values); effective == file if present else CLI; all other options untouched; derived sync_type / source-suffix regex follow")
     obs += parts("O2.pair", F, "pair", n, T, what="pairs of options (i, i+7d mod N, d=1..3) with independent presence/values")
     obs += parts("O3.fault", F, "fault", n, T, what="invalid configuration (parser ValueError, 7 non-object top levels, up to 7 wrongly typed values per option, alone or between valid ones): error message, all options keep CLI values, no exception")
+    obs += [XH("E.effects", F, "effects", 250 if tier == "quick" else 900,
+               what="observable effect instead of attribute values: hover text (attribute order, language tag), which declarations of a preprocessed file are indexed (pp_defs as mapping, as list of names, with numeric values), line-length diagnostics - at start-up and after a re-parse - are the same whether the option came from the command line or from the configuration file, and differ from the default")]
     return dict(
         obligations=obs,
         functions=["interface.cli", "LangServer.__init__", "LangServer._load_config_file", "_check_config_types",
